@@ -72,14 +72,37 @@ struct Dumper<'tcx> {
 
 impl<'tcx> Dumper<'tcx> {
     fn path(&self, did: DefId) -> String {
-        let p = ty::print::with_no_visible_paths!(ty::print::with_no_trimmed_paths!(
-            self.tcx.def_path_str(did)
+        let p = ty::print::with_crate_prefix!(ty::print::with_no_visible_paths!(
+            ty::print::with_no_trimmed_paths!(self.tcx.def_path_str(did))
         ));
-        if did.is_local() {
-            format!("{}::{}", self.tcx.crate_name(LOCAL_CRATE), p)
-        } else {
-            p
+        self.fix_crate(p)
+    }
+
+    // `crate::` (printed for local items under with_crate_prefix) -> the crate's name, so that
+    // every path is spelled the same from whichever crate it is seen
+    fn fix_crate(&self, p: String) -> String {
+        let name = format!("{}::", self.tcx.crate_name(LOCAL_CRATE));
+        let mut out = String::with_capacity(p.len() + 16);
+        let mut rest = p.as_str();
+        while let Some(i) = rest.find("crate::") {
+            let boundary = i == 0 || !(rest.as_bytes()[i - 1].is_ascii_alphanumeric() || rest.as_bytes()[i - 1] == b'_' || rest.as_bytes()[i - 1] == b'$');
+            out.push_str(&rest[..i]);
+            if boundary {
+                out.push_str(&name);
+            } else {
+                out.push_str("crate::");
+            }
+            rest = &rest[i + 7..];
         }
+        out.push_str(rest);
+        out
+    }
+
+    fn tystr(&self, t: Ty<'tcx>) -> String {
+        let s = ty::print::with_crate_prefix!(ty::print::with_no_visible_paths!(
+            ty::print::with_no_trimmed_paths!(format!("{}", t))
+        ));
+        self.fix_crate(s)
     }
 
     fn span(&self, sp: Span) -> String {
@@ -126,7 +149,7 @@ impl<'tcx> Dumper<'tcx> {
         let ix = self.types.len();
         self.types.push(String::new());
         self.type_ix.insert(t, ix);
-        let s = ty::print::with_no_visible_paths!(ty::print::with_no_trimmed_paths!(format!("{}", t)));
+        let s = self.tystr(t);
         let mut items: Vec<(&str, String)> = vec![("s", jstr(&s))];
         match t.kind() {
             ty::Bool => items.push(("k", jstr("bool"))),
@@ -205,7 +228,7 @@ impl<'tcx> Dumper<'tcx> {
     // ADT table: repr, variants, fields, layout when monomorphic
     fn adt(&mut self, did: DefId, t: Ty<'tcx>) {
         let tcx = self.tcx;
-        let key = ty::print::with_no_visible_paths!(ty::print::with_no_trimmed_paths!(format!("{}", t)));
+        let key = self.tystr(t);
         if self.adts.contains_key(&key) {
             return;
         }
@@ -299,7 +322,7 @@ impl<'tcx> Dumper<'tcx> {
             match tcx.def_kind(parent) {
                 DefKind::Impl { of_trait } => {
                     let self_ty = tcx.type_of(parent).instantiate_identity().skip_norm_wip();
-                    let s = ty::print::with_no_visible_paths!(ty::print::with_no_trimmed_paths!(format!("{}", self_ty)));
+                    let s = self.tystr(self_ty);
                     items.push(("impl_self", jstr(&s)));
                     if of_trait {
                         let tr = tcx.impl_trait_ref(parent).instantiate_identity().skip_norm_wip();
@@ -842,7 +865,7 @@ impl rustc_driver::Callbacks for Cb {
             let did = id.owner_id.to_def_id();
             if let DefKind::Impl { of_trait } = tcx.def_kind(did) {
                 let self_ty = tcx.type_of(did).instantiate_identity().skip_norm_wip();
-                let s = ty::print::with_no_visible_paths!(ty::print::with_no_trimmed_paths!(format!("{}", self_ty)));
+                let s = d.tystr(self_ty);
                 let mut items: Vec<(&str, String)> =
                     vec![("self", jstr(&s)), ("self_ty", d.ty(self_ty).to_string())];
                 if of_trait {
